@@ -559,6 +559,32 @@ impl FastDecoder<'_> {
     }
 }
 
+/// Verification hooks (parsing correspondence): the decoder's registers as plain numbers.
+#[cfg(image_webp_verif)]
+impl ArithmeticDecoder {
+    /// (chunk_index, value, range, bit_count, final_bytes, final_bytes_remaining)
+    pub(crate) fn verif_state(&self) -> (usize, u64, u32, i32, [u8; 3], i8) {
+        (
+            self.state.chunk_index,
+            self.state.value,
+            self.state.range,
+            self.state.bit_count,
+            self.final_bytes,
+            self.final_bytes_remaining,
+        )
+    }
+
+    /// Overwrites the registers (the chunks stay): used to replay a stored case from its printed state.
+    pub(crate) fn verif_set_state(&mut self, s: (usize, u64, u32, i32, [u8; 3], i8)) {
+        self.state.chunk_index = s.0;
+        self.state.value = s.1;
+        self.state.range = s.2;
+        self.state.bit_count = s.3;
+        self.final_bytes = s.4;
+        self.final_bytes_remaining = s.5;
+    }
+}
+
 #[cfg(test)]
 mod tests {
     use super::*;
